@@ -1,24 +1,42 @@
 #!/bin/bash
-# tools/seedtest.sh <seeded-dir> <tier> <check id>...   apply a seeded change to /repo, run checks, undo.
+# tools/seedtest.sh <seeded-dir> <tier> <check id>...   run checks against a seeded change.
+#
+# Default (development) mode: the patch is applied to a private scratch worktree of /repo under /tmp and
+# vcheck is built against that worktree through a scratch -modfile, so /repo is never touched and
+# several seeded changes can be tested while checks are being developed.
+# SEED_INPLACE=1: the sanctioned procedure - git -C /repo apply, run, git -C /repo checkout -- .
 # Evidence of these runs goes to a scratch directory, never to /verif/evidence.
 set -u
-DIR="$1"; TIER="$2"; shift 2
+DIR=$(readlink -f "$1"); TIER="$2"; shift 2
+NAME=$(basename "$DIR")
 export GOFLAGS=-mod=mod GOPROXY=off
 unset GOSUMDB GOTOOLCHAIN 2>/dev/null
 export PATH="$PATH:/usr/sbin:/sbin"
-S=/tmp/seed-scratch
+S=/tmp/seed-scratch-$NAME
 rm -rf $S; mkdir -p $S/bin $S/evidence
 cp /verif/known_findings.json $S/
-if [ -n "$(git -C /repo status --porcelain)" ]; then echo "/repo is not clean"; exit 3; fi
-git -C /repo apply "$DIR/patch.diff" || { echo "patch does not apply"; exit 3; }
-trap 'git -C /repo checkout -- . ; git -C /repo clean -fdq' EXIT
-/verif/tools/baseline.sh | tail -3
 cd /verif
-go build -tags verif -o $S/bin/vcheck ./cmd/vcheck || { echo BUILD FAILED; exit 3; }
+if [ "${SEED_INPLACE:-0}" = 1 ]; then
+  if [ -n "$(git -C /repo status --porcelain)" ]; then echo "/repo is not clean"; exit 3; fi
+  git -C /repo apply "$DIR/patch.diff" || { echo "patch does not apply"; exit 3; }
+  trap 'git -C /repo checkout -- . ; rm -rf $S/bin' EXIT
+  REPO=/repo
+  MODFLAG=""
+else
+  REPO=/tmp/seed-wt-$NAME
+  git -C /repo worktree remove --force $REPO >/dev/null 2>&1; rm -rf $REPO
+  git -C /repo worktree add --detach $REPO HEAD >/dev/null 2>&1 || { echo "cannot create worktree"; exit 3; }
+  trap 'git -C /repo worktree remove --force $REPO >/dev/null 2>&1; rm -rf $REPO $S/bin $S/go.mod $S/go.sum' EXIT
+  git -C $REPO apply "$DIR/patch.diff" || { echo "patch does not apply"; exit 3; }
+  sed "s|=> /repo|=> $REPO|" go.mod > $S/go.mod; cp go.sum $S/go.sum
+  MODFLAG="-modfile=$S/go.mod"
+fi
+[ "${SEED_NOBASELINE:-0}" = 1 ] || VERIF_REPO=$REPO /verif/tools/baseline.sh | tail -1
+go build $MODFLAG -tags verif -o $S/bin/vcheck ./cmd/vcheck || { echo BUILD FAILED; exit 3; }
 for ID in "$@"; do
-  if [ "$ID" = C17 ]; then go build -race -tags verif -o $S/bin/vcheck-race ./cmd/vcheck; fi
+  if [ "$ID" = C17 ]; then go build $MODFLAG -race -tags verif -o $S/bin/vcheck-race ./cmd/vcheck; fi
   VERIF_DIR=$S VERIF_TIER=$TIER $S/bin/vcheck check $ID $TIER > $S/$ID.out 2>&1
   rc=$?
-  echo "== $ID $TIER exit=$rc  $(grep -c '^VIOLATION' $S/$ID.out) violation(s)"
+  echo "== $NAME: $ID $TIER exit=$rc  $(grep -c '^VIOLATION' $S/$ID.out) violation(s)  $(grep -o 'wall=[0-9.]*s' $S/$ID.out | head -1)"
   grep -A3 '^VIOLATION' $S/$ID.out | grep -v '^--' | cut -c1-260 | head -12
 done
